@@ -37,12 +37,15 @@ Theorem C16_codecs : forall k r, In k FS -> In r (observed k) ->
             (can_decode_dataset c = true -> t_dec r <> L_NONE /\ t_enc r <> L_NONE).
 Proof. exact decodable_has_codecs. Qed.
 
-(** The capability queries agree with the codecs actually offered. *)
-Theorem C16_capabilities : forall k r, In k FS -> In r (observed k) ->
+(** The capability queries agree with the codecs actually offered: for every registered
+    transfer syntax and for every descriptor as declared (all seven codec kinds occur there). *)
+Theorem C16_capabilities : forall k r, In k FS -> In r (observed k) \/ In r (declared k) ->
   exists c, codec_of (t_codec r) = Some c /\ t_q r = answers c /\
             t_pdr r = pixel_data_reader c /\ t_pdw r = pixel_data_writer c /\
             t_dec r = dataset_codec (t_big r) (row_explicit r) /\ t_enc r = dataset_codec (t_big r) (row_explicit r).
 Proof. exact capabilities. Qed.
+Theorem C16_all_codec_kinds : forallb (fun c => existsb (fun r => t_codec r =? c) (declared 1)) [0;1;2;3;4;5;6] = true.
+Proof. exact all_codec_kinds_declared. Qed.
 
 (** The registry the implementation built is the model's fold of [register] over the
     descriptors in registration order; and [register] never duplicates a UID. *)
@@ -73,5 +76,6 @@ Print Assumptions C16_uids_unique.
 Print Assumptions C16_flags.
 Print Assumptions C16_codecs.
 Print Assumptions C16_capabilities.
+Print Assumptions C16_all_codec_kinds.
 Print Assumptions C16_registry_is_model.
 Print Assumptions C16_register_unique.
